@@ -37,36 +37,53 @@ pub fn check_roundtrip(text: &[char], labels: &[u8], tok_tags: &[Vec<Option<Stri
         Ok(Err(p)) => return Some(("write-panic".into(), format!("write_tokenized_text panicked / invalid UTF-8: {p}"))),
         Ok(Ok(w)) => w,
     };
+    for route in 0..3u8 {
+    // route 0: the constructor; route 1: update_tokenized on a sentence that already holds another,
+    // longer and more heavily tagged line (the parser writes into reused buffers there)
+    let via = ["", "-via-update", "-via-same-shape-update"][route as usize];
     let parsed = guard(|| {
-        Sentence::from_tokenized(&w).map(|p| {
+        let r = if route == 0 {
+            Sentence::from_tokenized(&w)
+        } else if route == 1 {
+            let mut prior = Sentence::from_tokenized("q/T1/T2/T3/T4/T5 rr/U1/U2/U3/U4/U5 s/V1/V2/V3/V4/V5 ttt/W1/W2/W3/W4/W5 u/X1/X2/X3/X4/X5 v/Y1/Y2/Y3/Y4/Y5").expect("prior line");
+            prior.update_tokenized(&w).map(|_| prior)
+        } else {
+            // a sentence of exactly the same shape with every tag slot filled
+            let mut prior = Sentence::from_raw("z".repeat(text.len())).expect("prior");
+            prior.reset_tags(n_tags);
+            prior.tags_mut().iter_mut().for_each(|t| *t = Some("Z".into()));
+            prior.update_tokenized(&w).map(|_| prior)
+        };
+        r.map(|p| {
             let toks: Vec<Vec<Option<String>>> = p.iter_tokens().map(|t| t.tags().iter().map(|x| x.as_ref().map(|x| x.to_string())).collect()).collect();
             (p.as_raw_text().to_string(), p.boundaries().iter().map(|&b| b as u8).collect::<Vec<u8>>(), toks, p.n_tags(), p.tags().len())
         })
     });
     match parsed {
-        Err(p) => Some(("parse-panic".into(), format!("from_tokenized({w:?}) panicked: {p}"))),
-        Ok(Err(e)) => Some(("parse-err".into(), format!("from_tokenized rejected written text {w:?}: {e}"))),
+        Err(p) => return Some((format!("parse-panic{via}"), format!("from_tokenized({w:?}) panicked: {p}"))),
+        Ok(Err(e)) => return Some((format!("parse-err{via}"), format!("from_tokenized rejected written text {w:?}: {e}"))),
         Ok(Ok((raw, bs, ptags, pn, plen))) => {
             if raw != t {
-                return Some(("text".into(), format!("written {w:?} parses to text {raw:?}, expected {t:?}")));
+                return Some((format!("text{via}"), format!("written {w:?} parses to text {raw:?}, expected {t:?}")));
             }
             if bs != labels {
-                return Some(("boundaries".into(), format!("written {w:?} parses to boundaries {bs:?}, expected {labels:?}")));
+                return Some((format!("boundaries{via}"), format!("written {w:?} parses to boundaries {bs:?}, expected {labels:?}")));
             }
             if plen != pn * text.len() {
-                return Some(("shape".into(), format!("parsed tags.len()={plen} != n_tags {pn} x chars {}", text.len())));
+                return Some((format!("shape{via}"), format!("parsed tags.len()={plen} != n_tags {pn} x chars {}", text.len())));
             }
             if ptags.len() != tok_tags.len() {
-                return Some(("tokens".into(), format!("parsed token count {} != {}", ptags.len(), tok_tags.len())));
+                return Some((format!("tokens{via}"), format!("parsed token count {} != {}", ptags.len(), tok_tags.len())));
             }
             for (k, (a, b)) in ptags.iter().zip(tok_tags).enumerate() {
                 if trim(a) != trim(b) {
-                    return Some(("tags".into(), format!("token {k}: written {w:?} parses to tags {:?}, expected {:?}", trim(a), trim(b))));
+                    return Some((format!("tags{via}"), format!("token {k}: written {w:?} parses to tags {:?}, expected {:?}", trim(a), trim(b))));
                 }
             }
-            None
         }
     }
+    }
+    None
 }
 
 /// write(parse(x)) is a fixpoint of parse-then-write for every accepted x.
